@@ -119,3 +119,35 @@ Definition rep_merge_entry (m : cmap) (ac : addr * cstats) : cmap :=
   cm_upd m (fst ac) (fun c => cs_merge c (snd ac)).
 Definition rep_receive (m : cmap) (snapshots : list cmap) : cmap :=
   fold_left (fun m snap => fold_left rep_merge_entry snap m) snapshots m.
+
+(* ---- the shared statistics queue (crossbeam ArrayQueue<Vec<ClientStats>>, capacity 2 * num_workers)
+   Workers publish snapshots with force_push — when the queue is full the OLDEST element is evicted
+   to make room — and the reporter pops until empty once per cycle, merging every entry. *)
+Record squeue := mksq { sq_cap : nat; sq_items : list cmap }.
+
+Definition sq_force_push (q : squeue) (x : cmap) : squeue * option cmap :=
+  if (length (sq_items q) <? sq_cap q)%nat then (mksq (sq_cap q) (sq_items q ++ [x]), None)
+  else match sq_items q with
+       | [] => (mksq (sq_cap q) [x], None)                      (* capacity 0 cannot be constructed *)
+       | old :: r => (mksq (sq_cap q) (r ++ [x]), Some old)     (* the evicted snapshot *)
+       end.
+
+Inductive qop := QPush (snap : cmap) | QDrain.
+
+(* state: the queue, the reporter's merged map, and (for the accounting) the evicted snapshots *)
+Fixpoint q_run (q : squeue) (merged : cmap) (lost : list cmap) (ops : list qop)
+  : squeue * cmap * list cmap :=
+  match ops with
+  | [] => (q, merged, lost)
+  | QPush x :: r =>
+      (* send_client_stats publishes only non-empty snapshots *)
+      match x with
+      | [] => q_run q merged lost r
+      | _ => let '(q', ev) := sq_force_push q x in
+             q_run q' merged (match ev with Some o => lost ++ [o] | None => lost end) r
+      end
+  | QDrain :: r => q_run (mksq (sq_cap q) []) (rep_receive merged (sq_items q)) lost r
+  end.
+
+Definition pushed_snaps (ops : list qop) : list cmap :=
+  flat_map (fun o => match o with QPush (e :: r) => [e :: r] | _ => [] end) ops.
